@@ -242,11 +242,11 @@ func (p *HTTPProxy) ServeHTTP(w http.ResponseWriter, r *http.Request) {
 			KeepAlive: p.Config.KeepAliveTimeout,
 		}
 		if targetURL.Scheme == "https" || targetURL.Scheme == "wss" {
-			h = newWSHandler(targetURL.Host, func(network, address string) (net.Conn, error) {
+			h = newWSHandler(wsDialAddr(targetURL), func(network, address string) (net.Conn, error) {
 				return tls.DialWithDialer(dialer, network, address, tr.(*http.Transport).TLSClientConfig)
 			}, p.Stats.WSConn)
 		} else {
-			h = newWSHandler(targetURL.Host, dialer.Dial, p.Stats.WSConn)
+			h = newWSHandler(wsDialAddr(targetURL), dialer.Dial, p.Stats.WSConn)
 		}
 
 	case accept == "text/event-stream":
@@ -306,6 +306,20 @@ func (p *HTTPProxy) ServeHTTP(w http.ResponseWriter, r *http.Request) {
 			UpstreamURL:     targetURL,
 		})
 	}
+}
+
+// wsDialAddr returns the host:port the websocket handler has to dial
+// for the target u. A target without a port gets the default port of
+// its scheme, as the http transports do for ordinary requests.
+func wsDialAddr(u *url.URL) string {
+	if u.Port() != "" {
+		return u.Host
+	}
+	port := "80"
+	if u.Scheme == "https" || u.Scheme == "wss" {
+		port = "443"
+	}
+	return net.JoinHostPort(u.Hostname(), port)
 }
 
 func key(code int) string {
